@@ -375,11 +375,12 @@ void RouterSession::checkNudging(const char *when) {
                 for (auto &cpt : cj.checkpoints) if (ptSegDist(cpt, b0, b1) < 1e-6) bEnd = true;
                 // was this pair a shared path in the raw routes?
                 bool rawShared = false, rawKnown = raw[i].size() == A.size() && raw[j].size() == B.size();
+                double rawC = 1e300, rawLo = 0, rawHi = 0;      // the shared stretch in the raw routes
                 if (rawKnown) {
                     Pt ra0 = raw[i][p - 1], ra1 = raw[i][p], rb0 = raw[j][q - 1], rb1 = raw[j][q];
                     if (coord(ra0, dim) == coord(ra1, dim) && coord(rb0, dim) == coord(rb1, dim) && coord(ra0, dim) == coord(rb0, dim)) {
                         double rlo = std::max(std::min(coord(ra0, o), coord(ra1, o)), std::min(coord(rb0, o), coord(rb1, o))), rhi = std::min(std::max(coord(ra0, o), coord(ra1, o)), std::max(coord(rb0, o), coord(rb1, o)));
-                        if (rhi - rlo > 1e-9) rawShared = true;
+                        if (rhi - rlo > 1e-9) { rawShared = true; rawC = coord(ra0, dim); rawLo = rlo; rawHi = rhi; }
                     }
                 }
                 if (sep < 1e-6) {
@@ -433,6 +434,9 @@ void RouterSession::checkNudging(const char *when) {
                             for (int t = 0; t < m && !third; t++) if (t != i && t != j) for (int ee = 0; ee < 2; ee++) {
                                 Pt q = conns[ids[t]].e[ee].pt;
                                 if (conns[ids[t]].e[ee].kind == 0 && std::fabs(coord(q, dim) - c0) < 2e-6 && coord(q, o) >= lo - 1e-9 && coord(q, o) <= hi + 1e-9) third = true;      // same tolerance as "collinear"
+                                // ... or on the stretch the two shared in their raw routes (with end segments nudgeable the whole bundle, the
+                                // third connector's end segment included, may since have been shifted as one: x=230 -> 230.871)
+                                if (conns[ids[t]].e[ee].kind == 0 && rawShared && std::fabs(coord(q, dim) - rawC) < 2e-6 && coord(q, o) >= rawLo - 1e-9 && coord(q, o) <= rawHi + 1e-9) third = true;
                             }
                             if (third) sig += ":a-third-connectors-end-point-lies-on-the-shared-line";
                             else if (!ci.checkpoints.empty() || !cj.checkpoints.empty()) sig += ":a-connector-of-the-pair-has-checkpoints";      // KF-C10-g
